@@ -570,6 +570,31 @@ func run(p *hx.Plan) []hx.Event {
 			if res == "ok" {
 				e.cur[sv] = &inflight{pack: pack, id: hx.S(pk, "id")}
 			}
+		case "feedsplit":
+			// one source PCHANNEL pack split by the dispatcher into the packs of several vchannels: like the real msg dispatcher
+			// the per-vchannel packs SHARE their start / end position objects (same pointers).  One feed event per stream.
+			var shared *msgstream.MsgPack
+			for xi, x := range hx.ML(st, "packs") {
+				sv := hx.S(x, "s")
+				c := e.streamOf(sv)
+				pk, _ := x["pack"].(map[string]interface{})
+				pack, rec := e.buildPack(sv, c, pk, seed+int64(si*10+xi))
+				if shared == nil {
+					shared = pack
+				} else {
+					pack.StartPositions, pack.EndPositions = shared.StartPositions, shared.EndPositions
+				}
+				res := e.disp.Feed(sv, pack, 3*time.Second)
+				if res == "ok" {
+					e.cur[sv] = &inflight{pack: pack, id: hx.S(pk, "id")}
+				}
+				fe := hx.Event{"op": "feed", "s": sv, "pack": rec, "res": res, "out": []hx.Event{}, "evs": []hx.Event{}, "regs": []hx.Event{}}
+				if xi < len(hx.ML(st, "packs"))-1 {
+					evs = append(evs, fe)
+				} else {
+					ev = fe
+				}
+			}
 		case "step":
 			g := hx.S(st, "g")
 			ev["g"] = g
